@@ -183,6 +183,11 @@ Section Abstract.
     destruct (Z.ltb_spec (absolute_expiry now delta) now'); [lia|reflexivity].
   Qed.
 
+End Abstract.
+
+Section Sound.
+  Variable P : prims.
+
   (** soundness: whatever [verify] accepts is authenticated by the HMAC for the method encoded in
       the (decrypted) info, pays at least the committed minimum, and is not expired; for
       LDK-generated hashes the returned preimage hashes to the payment hash. Unforgeability itself
@@ -231,4 +236,5 @@ Section Abstract.
     repeat match goal with |- context [?x =? ?y] => destruct (Z.eqb_spec x y); [lia|] end.
     reflexivity.
   Qed.
-End Abstract.
+End Sound.
+
